@@ -20,6 +20,8 @@ theorem verdict : (classify Generated.factsC11).Sound (HoldsAll Generated.factsC
 #print axioms w_empty
 #print axioms w_patch
 #print axioms w_reindex
+#print axioms w_shift_deleted
+#print axioms w_shift_stale_copy
 #print axioms refutes_of_findings
 #print axioms no_deadlock_repaired
 #print axioms no_deadlock_beacon_first
